@@ -443,6 +443,9 @@ def main(argv, here):
         else:
             print("unknown argument", argv[i]); return 2
     seed = int(os.environ.get("VERIF_SEED", "0") or 0)
+    if prop == "ALL":
+        # development mode: every unit, every obligation, no evidence file of its own
+        P.PROPS["ALL"] = P.mk(["u1", "u2", "glue"], [], [], "all obligations (development sweep)")
     if prop not in P.PROPS:
         print("property %s is not claimed (see MANIFEST.json not_applicable)" % prop)
         return 2
@@ -511,7 +514,7 @@ def run_property(here, repo, prop, cfg, tier, seed, tmp, t0):
         wmap = r["map"]
         if wmap["audit_failures"]:
             raise Undecided("fidelity audit failed: %s" % wmap["audit_failures"])
-        obs = [o for o in wmap["obligations"] if prop in o["props"] and o["kind"] != "shape-failed"]
+        obs = [o for o in wmap["obligations"] if (prop in o["props"] or prop == "ALL") and o["kind"] != "shape-failed"]
         all_obs += [(u, o) for o in obs]
         times = fn_times(r["res"])
         pf = set(o["func"] for o in obs)
@@ -526,7 +529,7 @@ def run_property(here, repo, prop, cfg, tier, seed, tmp, t0):
                                 "unit": u, "woven": f.get("woven", False), "smt_ms": t.get("time"), "rlimit": t.get("rlimit"),
                                 "backend": "verus/z3" if f.get("woven") else "kweave AST shape match"})
         for (a, b, name) in scan_lemmas(r["rs_text"]):
-            if name in LEMMAS and prop in LEMMAS[name][1]:
+            if name in LEMMAS and (prop in LEMMAS[name][1] or prop == "ALL"):
                 lemma_obs.append({"obligation": LEMMAS[name][0], "kind": "spec-lemma", "function": name, "unit": u, "backend": "verus/z3",
                                   "clause": "proof fn %s in contracts/spec_%s.rs (pure proof over the reference channel)" % (name, u)})
         rewrites += [dict(x, unit=u) for x in wmap["rewrites"]]
@@ -540,7 +543,7 @@ def run_property(here, repo, prop, cfg, tier, seed, tmp, t0):
         vac_unreached += r["vac_unreached"]
         checker_cmds.append("(cd <scratch> && %s)" % r["res"]["cmd"])
         for f in r["failures"]:
-            if prop not in f["props"]:
+            if prop not in f["props"] and prop != "ALL":
                 continue
             failed.append(f)
     # extra engines (kani groups) would be merged here
